@@ -222,7 +222,7 @@ def _(E, form):
 
 
 @family("C13/Color.rgb_percent_function", ["rgb3", "rgba4"],
-        funcs=["Color.parse", "Color.parse_color_rgbp", "Color.rgb_to_int", "Color.crimp"])
+        funcs=["Color.parse", "Color.parse_color_rgbp", "Color.rgb_to_int", "Color.crimp"], timeout_ms=90000)
 def _(E, form):
     r, g, b = E.reals("r g b", lambda q: q.uniform(0, 140))
     E.assume(And(r >= 0, g >= 0, b >= 0))
